@@ -182,10 +182,21 @@ def r4(rr, repo):
     else:
         v = rets[0].value
         parts = v.values if isinstance(v, ast.BoolOp) and isinstance(v.op, ast.And) else [v]
-        has_notnone = any(isinstance(x, ast.Compare) and isinstance(x.ops[0], ast.IsNot) and isinstance(x.comparators[0], ast.Constant)
-                          and x.comparators[0].value is None and 'recvd' in U(x.left) for x in parts)
+        exist = [x for x in parts if 'recvd' in U(x) and 'values()' not in U(x)]
+        verdict = None
+        for x in exist:
+            t = x.value if isinstance(x, ast.NamedExpr) else x
+            if isinstance(x, ast.Compare) and isinstance(x.ops[0], ast.IsNot) and isinstance(x.comparators[0], ast.Constant) and x.comparators[0].value is None:
+                verdict = True
+            elif isinstance(x, ast.Call) and U(x.func) == 'isinstance':
+                verdict = True
+            elif isinstance(x, (ast.Name, ast.NamedExpr, ast.Attribute)) or (isinstance(x, ast.Call) and U(x.func) in ('bool', 'len')):
+                verdict = False    # truthiness: an existing but EMPTY set ({} is a complete set for a publisher that sent no topics) would count as missing
+        if verdict is None:
+            rr.unresolved('got_all: no recognised "a set exists" test on recvd', za.mod, rets[0], key='got_all-notnone')
+        else:
+            rr.ob('got_all requires a set to exist (recvd is not None) without demanding that it be non-empty', verdict, za.mod, rets[0], witness=U(v)[:120], key='got_all-notnone')
         uni = [(_universal_none_free(x), x) for x in parts if 'values()' in U(x) or ' in ' in U(x)]
-        rr.ob('got_all requires a set to exist (recvd is not None)', has_notnone if isinstance(v, ast.BoolOp) else False, za.mod, rets[0], key='got_all-notnone')
         if not uni:
             rr.unresolved('got_all: no recognised completeness idiom over recvd.values()', za.mod, rets[0], key='got_all-idiom')
         for u, x in uni:
